@@ -114,6 +114,13 @@ void DynamicConstructorDataGlobal::addTensor(const int *tensor, std::function<in
     }
 }
 
+void DynamicConstructorDataGlobal::addTensorsOfStoredNodes(std::function<std::vector<int>(std::vector<int> const &)> getLevels, std::function<int(int)> getNumPoints){
+    for(auto const &p : data){
+        bool covered = std::any_of(tensors.begin(), tensors.end(), [&](TensorData const &t)->bool{ return (t.points.getSlot(p.point) != -1); });
+        if (!covered) addTensor(getLevels(p.point).data(), getNumPoints, getMaxTensorWeight() + 1.0);
+    }
+}
+
 MultiIndexSet DynamicConstructorDataGlobal::getNodesIndexes(){
     std::vector<int> inodes;
     auto get_weight = [](const TensorData &tensor)->double{
